@@ -116,6 +116,11 @@ pub struct StreamSpec {
     /// kind of the hard error: 0 Other, 1 BrokenPipe, 2 UnexpectedEof, 3 ConnectionReset, 4 TimedOut, 5 WouldBlock
     pub hard_error_kind: u8,
     pub seek_error: bool,
+    /// hard error placed at a byte position instead of a call index: bytes before this absolute
+    /// offset are delivered (a read crossing it is cut short), the read that would deliver the
+    /// byte at this offset fails, and so does every later call
+    #[serde(default)]
+    pub hard_error_offset: Option<u64>,
 }
 
 impl Default for StreamSpec {
@@ -127,6 +132,7 @@ impl Default for StreamSpec {
             hard_error_call: None,
             hard_error_kind: 0,
             seek_error: false,
+            hard_error_offset: None,
         }
     }
 }
